@@ -532,6 +532,13 @@ func rulePoolSelfTerminal(r *Run) {
 			n++
 			site++
 			key := fmt.Sprintf("%s/terminal-after-self-put#%d", shortFunc(fn), site)
+			// an io.Reader may be read again after it reported io.EOF (the stream codecs do: they use data
+			// delivered together with io.EOF and let the next Read report the io.EOF), so a Read that gives its own
+			// receiver away is never terminal: by the next call another request owns the object
+			if fn.Name() == "Read" && fn.Signature.Params().Len() == 1 && fn.Signature.Results().Len() == 2 {
+				r.bad(key, c.Pos(), "%s puts its own receiver into the pool, but a reader is legitimately read again after its io.EOF (the stream codecs use data delivered with io.EOF and read once more): the next Read runs on an object that another request may have taken from the pool and Reset onto its own body - the finished stream receives the other request's data", shortFunc(fn))
+				return
+			}
 			putBlock := c.Block()
 			after := func(b *ssa.BasicBlock) bool { return b != nil && (b == putBlock || putBlock.Dominates(b)) }
 			bad := false
@@ -559,8 +566,98 @@ func rulePoolSelfTerminal(r *Run) {
 				fmt.Sprintf("%s puts its own receiver into the pool and can then return a nil error: the caller calls again on a pooled object, which is handed to another request in the meantime (and put a second time)", shortFunc(fn)))
 		})
 	}
+	// a method that gives a *field* of its receiver to a pool (the wrapper stays with its stream, the pooled object
+	// goes back): the field is cleared on every path from the Put to a return, and the method touches the field
+	// only behind a nil test - later calls find nothing to use
+	for _, fn := range p.ModuleFuncs() {
+		if fn.Parent() != nil || fn.Signature.Recv() == nil || len(fn.Blocks) == 0 {
+			continue
+		}
+		recv := fn.Params[0]
+		site := 0
+		eachInstr(fn, func(in ssa.Instruction) {
+			c, ok := in.(*ssa.Call)
+			if !ok {
+				return
+			}
+			put, isPut := p.poolPut(c)
+			if !isPut || put == nil {
+				return
+			}
+			var fld *types.Var
+			for _, o := range p.origins(put, originOpts{local: true, throughConvert: true}) {
+				if u, ok := o.(*ssa.UnOp); ok && u.Op == token.MUL {
+					if fa, ok := u.X.(*ssa.FieldAddr); ok && (fa.X == ssa.Value(recv) || p.onlyFrom(fa.X, recv)) {
+						fld = fieldOfAddr(fa)
+					}
+				}
+			}
+			if fld == nil {
+				return
+			}
+			// deferred puts run at the end of a terminal method (Close): not mid-use
+			if _, isDefer := in.(*ssa.Defer); isDefer {
+				return
+			}
+			n++
+			site++
+			key := fmt.Sprintf("%s/field-cleared-after-put:%s#%d", shortFunc(fn), fld.Name(), site)
+			isClear := func(x ssa.Instruction) bool {
+				st, ok := x.(*ssa.Store)
+				if !ok || !isNilConst(st.Val) {
+					return false
+				}
+				fa, ok := st.Addr.(*ssa.FieldAddr)
+				return ok && fieldOfAddr(fa) == fld
+			}
+			if w, _ := (pathQuery{fn: fn, start: in, target: isReturn, barrier: isClear}).find(); w != nil {
+				r.bad(key, c.Pos(), "%s gives its field %s to the pool and can return without clearing it (%s): the next call uses an object that another request may have taken from the pool", shortFunc(fn), fld.Name(), p.describePath(w))
+				return
+			}
+			// every load of the field that is used (called on / dereferenced) is behind a nil test of the field
+			isFieldLoad := func(v ssa.Value) bool {
+				u, ok := v.(*ssa.UnOp)
+				if !ok || u.Op != token.MUL {
+					return false
+				}
+				fa, ok := u.X.(*ssa.FieldAddr)
+				return ok && fieldOfAddr(fa) == fld
+			}
+			unguarded := false
+			eachInstr(fn, func(x ssa.Instruction) {
+				call, ok := x.(ssa.CallInstruction)
+				if !ok || x == ssa.Instruction(c) {
+					return
+				}
+				uses := false
+				if call.Common().IsInvoke() && isFieldLoad(call.Common().Value) {
+					uses = true
+				}
+				for _, a := range call.Common().Args {
+					if isFieldLoad(a) {
+						uses = true
+					}
+				}
+				if !uses {
+					return
+				}
+				guarded := false
+				for _, g := range guardsOf(x.Block()) {
+					xv, yv, op, ok := g.cmp()
+					if ok && isNilConst(yv) && isFieldLoad(xv) && op == token.NEQ {
+						guarded = true
+					}
+				}
+				if !guarded {
+					unguarded = true
+				}
+			})
+			r.check(!unguarded, key, c.Pos(), "the field is cleared after the Put on every path and used only behind a nil test: later calls find nothing to use",
+				fmt.Sprintf("%s gives its field %s to the pool and clears it, but uses the field without testing it for nil first: a call after the release dereferences nil", shortFunc(fn), fld.Name()))
+		})
+	}
 	if n == 0 {
-		r.undecided("self-releasing methods", token.NoPos, "no method puts its own receiver into a sync.Pool outside a defer")
+		r.undecided("self-releasing methods", token.NoPos, "no method gives its own receiver or a field of it to a sync.Pool outside a defer")
 	}
 }
 
